@@ -665,6 +665,7 @@ func vSchedule()                 {}
 // goroutines of the connection are counted against the number running when the harness began.
 var vBaseGoroutines int
 func vThreads()                  { vBaseGoroutines = runtime.NumGoroutine() }
+func vSchedulePolicy(k int)      { vThreads() }
 func vYield()                    { time.Sleep(60 * time.Millisecond) }
 func vLiveThreads() int {
 	for i := 0; i < 100 && runtime.NumGoroutine() > vBaseGoroutines; i++ {
